@@ -154,11 +154,11 @@ Fixpoint ref_final (f : rfile) (ops : list fop) : rfile :=
 
 (* ---- MultiFileReader: the reference is ONE file holding the concatenation - *)
 Inductive mop :=
-| MRead (amt : option nat)     (* m.read() / m.read(amt), amt >= 1 *)
+| MRead (amt : option nat)     (* m.read() / m.read(amt) *)
 | MSeek0.                      (* m.seek(0) *)
 
-Definition mref_pre (op : mop) : bool :=
-  match op with MRead (Some 0) => false | _ => true end.
+(* every call is inside: read(0) returns nothing (as a file), read() / read(None) everything *)
+Definition mref_pre (op : mop) : bool := true.
 
 Definition mref_step (f : rfile) (op : mop) : rfile * fobs :=
   match op with
